@@ -125,7 +125,10 @@ def make_body(n_initial, epochs, allow_append, allow_gain, append_epochs=None):
                     if qual:
                         prev[ip] = got
                         sx.reach("established")
-                    groups = [set(g) for g in gd.calculate(study).search_spaces]
+                    res_g = gd.calculate(study)
+                    groups = [set(g) for g in res_g.search_spaces]
+                    # the caller owns the returned object too: adding a junk group to it must not leak into later results
+                    res_g.add_distributions({"zz-junk": FloatDistribution(0, 1)})
                     assert all(a.isdisjoint(b) for i, a in enumerate(groups) for b in groups[i + 1:]), f"groups overlap: {groups}"
                     seen = set().union(*[set(t.distributions) for t in qual]) if qual else set()
                     assert set().union(*groups) == seen if groups else not seen, f"groups {groups} do not cover seen parameters {seen}"
